@@ -122,6 +122,9 @@ class C30(core.Check):
             c(screen=0, stmt={'k': 'view', 'x0': 10, 'y0': 10, 'x1': 100, 'y1': 100, 'screen': True, 'fill': 2,
                               'border': 3}),
             c(screen=0, stmt={'k': 'paint', 'x': 5, 'y': 5, 'c': 2}),
+            c(screen=0, stmt={'k': 'view0'}),           # seeded C30f: bare VIEW in a text mode
+            c(screen=0, stmt={'k': 'window0'}),
+            c(screen=1, stmt={'k': 'window0'}),
             c(screen=0, stmt={'k': 'draw', 's': 'U10'}),
             c(screen=0, stmt={'k': 'put', 'x': 5, 'y': 5, 'w': 8, 'h': 6, 'op': 0, 'seed': 1}),
             # seeded C30d: a VIEW rejected for its fill / border attribute (> 255) while a viewport is active must not
@@ -182,6 +185,14 @@ class C30(core.Check):
             return col()
         k = rng.choice(['pset', 'pset', 'line', 'line', 'line', 'line', 'line', 'view', 'circle', 'paint', 'draw',
                         'put'])
+        if text:
+            # text mode: every statement form, also the coordinate-less VIEW and WINDOW (C30f)
+            k = rng.choice(['pset', 'line', 'view', 'view0', 'view0', 'window0', 'window0', 'circle', 'paint', 'draw',
+                            'put'])
+            if k in ('view0', 'window0'):
+                return {'k': k}
+        elif rng.random() < 0.02:
+            return {'k': 'window0'}
         if k == 'pset':
             return {'k': 'pset', 'x': cx(), 'y': cy(), 'c': col(), 'preset': rng.random() < 0.3,
                     'step': rng.random() < 0.2}
@@ -383,6 +394,8 @@ class C30(core.Check):
             return t
         if k == 'view0':
             return 'VIEW'
+        if k == 'window0':
+            return 'WINDOW'
         if k == 'view':
             t = 'VIEW %s(%s,%s)-(%s,%s)' % ('SCREEN ' if d.get('screen') else '', n(d['x0']), n(d['y0']), n(d['x1']),
                                              n(d['y1']))
@@ -652,6 +665,8 @@ class C30(core.Check):
                 if name == '_draw_box_filled':
                     return '(SBoxF %s)' % ' '.join(z(v) for v in a[:5])
             return generic(3)
+        if k == 'window0':
+            return '(SPixels 0 [] %d)' % err     # guard only: WINDOW draws nothing
         if k in ('view', 'view0'):
             if text:
                 return '(SView 0 0 1 1 false None None)'
